@@ -157,18 +157,21 @@ func sizeValues() []struct {
 		}
 		p := fmt.Sprintf("size=%d:", s)
 		add(p+"[]byte", pattern(s))
+		add(p+"string", text(min(s, 32767)))
+		add(p+"RawMessage", nbt.RawMessage{Type: nbt.TagByteArray, Data: refnbt.AppendPayload(nil, nBA(make([]int64, s)...))})
+		if s > 40000 {
+			continue // element-wise kinds (one Write per element): up to 40000 bytes, as on the read side
+		}
 		add(p+"[]bool", make([]bool, s))
 		add(p+"[]int32", i32)
 		add(p+"[]uint32", u32)
 		add(p+"[]int64", i64)
 		add(p+"[]uint64", u64)
 		add(p+"[]any-int32", anyInts)
-		add(p+"string", text(min(s, 32767)))
 		add(p+"[]string", strs)
 		add(p+"[]int16", i16)
 		add(p+"struct-list-tags", asList{V: i32, W: i64, T: 4})
 		add(p+"map-long-key", map[string]int32{text(min(s, 32767)): 1})
-		add(p+"RawMessage", nbt.RawMessage{Type: nbt.TagByteArray, Data: refnbt.AppendPayload(nil, nBA(make([]int64, s)...))})
 	}
 	return out
 }
